@@ -366,7 +366,7 @@ var readonlyExempt = map[string]string{
 
 func ruleReadonly(scope func(tok string, cmd *GCmd) bool) func(*Ctx) {
 	return func(c *Ctx) {
-		c.S.Rule("A5-readonly", textReadonly, 20)
+		c.S.Rule("A5-readonly", textReadonly, 10)
 		g, err := c.M.Grammar()
 		if err != nil {
 			c.S.Undecided("A5-readonly", "grammar", "-", err.Error())
